@@ -1059,10 +1059,21 @@ func verifC11TCP(vc *verifCtx, r *verifRng) {
 func TestVerifC11(t *testing.T) {
 	vc := verifStart(t, "C11", "transport")
 	defer vc.Finish()
+	verifC11Run(t, vc, vc.N(200, 30000), 100)
+}
+
+// TestVerifC11Race is the same workload at a smaller volume for the -race /
+// checkptr build (pooled send buffers, listener goroutines).
+func TestVerifC11Race(t *testing.T) {
+	vc := verifStart(t, "C11", "transport_race")
+	defer vc.Finish()
+	verifC11Run(t, vc, vc.N(32, 640), 16)
+}
+
+func verifC11Run(t *testing.T, vc *verifCtx, total, tcpEvery int) {
 	if err := verifC11SelfCheck(); err != nil {
 		t.Fatalf("verif C11: reference self-check against the BOLT-8 vectors failed: %v", err)
 	}
-	total := vc.N(200, 10000)
 	for i := 0; i < total; i++ {
 		if !vc.Mine(i) {
 			continue
@@ -1079,7 +1090,7 @@ func TestVerifC11(t *testing.T) {
 		vc.Case(i, wit)
 		s := &verifC11S{vc: vc, r: r, idx: i, keys: keys, wit: wit}
 		vc.Guard("no_panic", "session", wit, s.run)
-		if i%100 == 0 {
+		if i%tcpEvery == 0 {
 			verifC11TCP(vc, r.Fork("tcp"))
 		}
 		if i < 40 && i%10 == 0 {
